@@ -17,8 +17,8 @@ type FragReader struct {
 	EOFWithData bool
 	// FinalErr, if set, is what the last fragment arrives with (and what later
 	// calls return) instead of io.EOF: an error that is not EOF, or wraps it
-	FinalErr error
-	MaxPerCall  int // 0 = unlimited (only cuts fragment)
+	FinalErr   error
+	MaxPerCall int // 0 = unlimited (only cuts fragment)
 	// ZeroAt >= 0: the first Read call that starts at this offset returns
 	// (0, nil) - "nothing happened", which the io.Reader contract allows and
 	// callers must not take for end of file; ZeroEvery: every other call does.
